@@ -31,7 +31,7 @@ ASSUMPTIONS = ["f64::from_str is an arbitrary function pf in every theorem; the 
                "results std returned for the strings of each document",
                "documents are well-formed XML (quick-xml's tokenisation, entity unescaping and end-tag matching are not modelled)"]
 
-HEADER = ("Require Import Norad.Run.C12.\nOpen Scope N_scope.\n"
+HEADER = ("Require Import Norad.Run.C12.\nFrom Coq Require Import Uint63.\nOpen Scope uint63_scope.\n"
           "Set Printing Width 1000000. Set Printing Depth 10000000.\n")
 ERRN = {1: "UnexpectedMove", 2: "UnexpectedPointAfterOffCurve", 3: "UnexpectedSmooth", 4: "TooManyOffCurves",
         5: "TrailingOffCurves", 10: "UnsupportedGlifVersion", 11: "UnknownPointType", 12: "WrongFirstElement",
@@ -46,24 +46,13 @@ ERRN = {1: "UnexpectedMove", 2: "UnexpectedPointAfterOffCurve", 3: "UnexpectedSm
 
 def load_cases(out):
     rows = []
-    for f in sorted(glob.glob(os.path.join(out, "cases_*.jsonl")), key=lambda p: int(p.split("_")[-1].split(".")[0])):
+    cf = os.path.join(out, "cases_corpus.jsonl")
+    if os.path.exists(cf):
+        rows += [json.loads(ln) for ln in open(cf) if ln.strip()]
+    for f in sorted([p for p in glob.glob(os.path.join(out, "cases_*.jsonl")) if not p.endswith("corpus.jsonl")], key=lambda p: int(p.split("_")[-1].split(".")[0])):
         for ln in open(f):
             if ln.strip():
                 rows.append(json.loads(ln))
-    return rows
-
-
-def corpus_rows(ctx):
-    """committed witnesses: corpus/C12/*.json, each {"xml":..., "legal":..., "class":..., "inj":...}"""
-    import driver
-    d = os.path.join(driver.VERIF, "corpus", "C12")
-    rows = []
-    if os.path.isdir(d):
-        for f in sorted(os.listdir(d)):
-            if f.endswith(".json"):
-                r = json.load(open(os.path.join(d, f)))
-                r["corpus"] = f
-                rows.append(r)
     return rows
 
 
@@ -84,7 +73,9 @@ def run(ctx, known, built):
     from driver import sh, coq_values, parse_term
     out = os.path.join(ctx.scratch, "c12")
     os.makedirs(out)
-    rc, o = sh([ctx.harness, "c12", "--tier", ctx.tier, "--seed", str(ctx.seed), "--out", out], timeout=3000)
+    import driver
+    corpus = os.path.join(driver.VERIF, "corpus", "C12")
+    rc, o = sh([ctx.harness, "c12", "--tier", ctx.tier, "--seed", str(ctx.seed), "--out", out, "--corpus", corpus], timeout=3000)
     if rc != 0:
         ctx.disagreements.append({"what": "harness c12 failed", "output": o[-2000:]})
         return
@@ -92,6 +83,7 @@ def run(ctx, known, built):
     known_ids = {k["id"] for k in known}
     # ---- property oracle on the implementation (labels of the generator)
     hist = {}
+    stale = set()
     for r in rows:
         acc = r["impl"] == "Ok"
         key = "%s/%s/%s" % ("legal" if r["legal"] else "illegal", r["class"] or "-", "accepted" if acc else "rejected")
@@ -101,6 +93,8 @@ def run(ctx, known, built):
                                    "demand": "the parser returns a glyph or an error, it does not panic"})
             continue
         if r["legal"] == acc:
+            if r.get("corpus") and r["class"]:
+                stale.add(r["corpus"])
             continue
         if r["class"] and r["class"] in known_ids:
             ctx.known_hits[r["class"]] = ctx.known_hits.get(r["class"], 0) + 1
@@ -117,9 +111,9 @@ def run(ctx, known, built):
         vf = os.path.join(out, "cases_%d.v" % b)
         with open(vf, "w") as f:
             f.write(HEADER)
-            f.write("Definition cases : list (case * tm) := [\n")
-            f.write(";\n".join("((%s,%s),%s)" % (r["doc"], r["pf"], r["exp"]) for r in part))
-            f.write("].\nEval vm_compute in mismatches run_case cases.\n")
+            f.write("Definition cases : list (list int * list int) := [\n")
+            f.write(";\n".join("(%s,%s)" % (r["case"], r["exp"]) for r in part))
+            f.write("].\nEval vm_compute in mismatches_packed run_packed cases.\n")
         files.append(vf)
         shard_rows[vf] = part
     if not built:
@@ -157,6 +151,8 @@ def run(ctx, known, built):
         "exhaustive": False,
         "input_distribution": hist,
         "traces_validated_against_impl": len(rows),
+        "corpus_witnesses": len({r["corpus"] for r in rows if r.get("corpus")}),
+        "stale_witnesses": sorted(stale),
     })
     for r in rows[1:4]:
         ctx.samples.append({"injection": r["inj"], "format": r["ver"], "implementation": r["impl"], "xml": r["xml"][:400]})
